@@ -101,12 +101,25 @@ def balanced_connected_multigraphs(n_inner, max_trav, selfloops=True):
                 yield inner, S, T, mult
 
 
+_CURATED = [
+    {("S", "a"): 1, ("a", "b"): 1, ("b", "a"): 1, ("a", "T"): 1, ("a", "c"): 1, ("c", "a"): 1, ("b", "d"): 1, ("d", "b"): 1},
+    {("S", "a"): 1, ("a", "b"): 2, ("b", "a"): 2, ("a", "T"): 1, ("a", "c"): 1, ("c", "a"): 1, ("b", "d"): 1, ("d", "b"): 1},
+    {("S", "a"): 1, ("a", "b"): 1, ("b", "c"): 1, ("c", "a"): 1, ("a", "T"): 1, ("a", "a"): 1, ("b", "d"): 1, ("d", "b"): 1, ("c", "c"): 1},
+    {("S", "a"): 1, ("a", "b"): 1, ("b", "a"): 1, ("a", "e"): 1, ("e", "T"): 1, ("a", "c"): 1, ("c", "a"): 1, ("b", "d"): 1, ("d", "b"): 1, ("e", "e"): 1},
+]
+
+
 def cases(tier):
     bounds = [(1, 5), (2, 6), (3, 6)] if tier == "quick" else [(1, 7), (2, 8), (3, 8), (4, 7)]
     for n, mt in bounds:
         for inner, S, T, mult in balanced_connected_multigraphs(n, mt):
             edges = sorted(mult)
             yield dict(inner=inner, mult=[[list(e), c] for e, c in sorted(mult.items())])
+    # curated: the first greedy source-to-sink walk visits a vertex twice and closed walks hang at consecutive trunk vertices
+    # (4-5 inner nodes, 8-11 traversals: beyond the exhaustive bounds above; the orderings are sampled, see check)
+    for mult in _CURATED:
+        inner = sorted({v for e in mult for v in e if v not in ("S", "T")})
+        yield dict(inner=inner, mult=[[list(e), c] for e, c in sorted(mult.items())], fam="trunk-revisit")
     # the all-zero assignment and a layer that uses nothing
     yield dict(inner=["x0", "x1"], mult=[], zero=True)
 
@@ -123,13 +136,22 @@ def check(case):
     idx_used = [all_edges.index(e) for e in used]
     rest = [i for i in range(len(all_edges)) if i not in idx_used]
     n_orders = 0
-    perms = itertools.permutations(idx_used) if len(idx_used) <= 6 else itertools.islice(itertools.permutations(idx_used), 0, 720)
+    if len(idx_used) <= 6:
+        perms = itertools.permutations(idx_used)
+    else:
+        # beyond 6 used edges: the first 240 orderings in lexicographic order + 480 pseudo-random ones (fixed seed: the run is reproducible)
+        import random
+        rnd = random.Random(len(idx_used) * 7919 + sum(idx_used))
+        perms = itertools.chain(itertools.islice(itertools.permutations(idx_used), 0, 240),
+                                (tuple(rnd.sample(idx_used, len(idx_used))) for _ in range(480 if not case.get("fam") else 3000)))
     for perm in perms:
         n_orders += 1
         m = _fresh_model()
         m.G = _G([S] + inner + [T], all_edges, S, T, list(perm) + rest)
         m.k = 1
-        m.edge_vars_sol = {(str(u), str(v), 0): float(c) for (u, v), c in mult.items()}
+        # a solver reports an integral multiplicity only up to its integrality tolerance: every third ordering is fed c -/+ 1e-7
+        dev = (0.0, -1e-7, 1e-7)[n_orders % 3]
+        m.edge_vars_sol = {(str(u), str(v), 0): float(c) + dev for (u, v), c in mult.items()}
         m.edge_vars_sol.update({(str(u), str(v), 0): 0.0 for (u, v) in all_edges if (u, v) not in mult})
         m._build_residual_graph_for_layer = lambda i, m=m: A._build_residual_graph_for_layer(m, i)
         m._reconstruct_eulerian_walk = lambda rg, i, m=m: A._reconstruct_eulerian_walk(m, rg, i)
@@ -164,6 +186,7 @@ def run(tier="quick", seed=0, chunk=0, nchunks=1):
     from vf.bounded import run_cases
     return run_cases(cases(tier), check, chunk, nchunks, engine="rc(exhaustive enumeration, no solver)",
                      rule="every connected, inner-balanced multiplicity vector with one source edge and one sink edge on <=3 (thorough 4) inner nodes incl. self-loops and <=6 (8) traversals, "
-                          "x every ordering of the used edges (<=720 per vector); non-trivial = the vector contains a cycle or a repeated edge",
+                          "x every ordering of the used edges (<=720 per vector; beyond 6 used edges 240 lexicographic + 480 seeded pseudo-random orderings), values fed as c, c-1e-7, c+1e-7 in turn; "
+                          "+ 4 curated vectors (4-5 inner nodes, 8-11 traversals: a trunk that revisits a vertex, closed walks hanging at consecutive trunk vertices) x 3240 sampled orderings; non-trivial = the vector contains a cycle or a repeated edge",
                      bounds="inner nodes <= %d, traversals <= %d" % ((3, 6) if tier == "quick" else (4, 8)),
                      assumptions=["the decoder reads only G.nodes(), G.edges(), G.source, G.sink and edge_vars_sol (checked: a minimal stand-in object suffices)"])
